@@ -138,6 +138,7 @@ def run(an: Analysis, rep):
     from . import c02, c09, c10
     rep.run(r016, an, rep)
     rep.run(r015_order, an, rep)
+    rep.run(r015_every_line, an, rep)
     rep.run(r017, an, rep)
     from .common import identity_rule, rebuild_rule
     rep.run(identity_rule, an, rep, "R01.9", ["from_code", "to_code"])
@@ -264,6 +265,28 @@ def r015_order(an: Analysis, rep):
             rep.add("R01.5", f"{f.qual}::first-line shift covers every line ({side})", not problems, loc(f.module, sc),
                     "; ".join(problems[:2]) + ": that line is off by co_firstlineno in the re-encoded table / decoded data" if problems
                     else f"the shift `{norm_src(sc)}` is ordered {'after every store into' if side == 'encode' else 'before every read of'} the mapping")
+
+
+def r015_every_line(an: Analysis, rep):
+    """The shift by the first line number applies to EVERY line that is not None: lines are kept relative to co_firstlineno and may be
+    negative or zero (a module that starts with a multi-line statement), so a condition on the value exempts real lines."""
+    lm = an.prog.cls("code_data._line_mapping::LineMapping")
+    shift = next((m for m in lm.methods.values() if len(m.params) == 2 and any(isinstance(x, (ast.AugAssign, ast.BinOp)) for x in ast.walk(m.node))
+                  and any(isinstance(x, ast.Name) and x.id == m.params[1] for x in ast.walk(m.node))), None)
+    if shift is None:
+        raise AnalysisError("LineMapping shift method not found")
+    bad = []
+    for c in ast.walk(shift.node):
+        if isinstance(c, ast.Compare):
+            none_test = len(c.ops) == 1 and isinstance(c.ops[0], (ast.Is, ast.IsNot)) and isinstance(c.comparators[0], ast.Constant) and c.comparators[0].value is None
+            if not none_test:
+                bad.append(c)
+        if isinstance(c, (ast.If, ast.IfExp, ast.While)) and isinstance(c.test, (ast.Name, ast.Attribute, ast.Subscript)):
+            bad.append(c.test)
+    rep.add("R01.5", f"{shift.qual}::every line that is not None is shifted", not bad, loc(shift.module, bad[0] if bad else shift.node),
+            "the only condition on a line is `is not None`" if not bad else
+            f"`{norm_src(bad[0])}` makes the shift depend on the value of the line: lines relative to co_firstlineno can be zero or negative (code that begins with a multi-line "
+            f"statement), those are left unshifted and come out as -1, -2, ... in the decoded data")
 
 
 def _stores_lines(m) -> bool:
